@@ -1,4 +1,5 @@
 import PGA.Model.Aromatize
+import PGA.Spec.Embeds
 /-! # "The same molecule written differently", on molecule graphs (C03)
 
 Vocabulary for the statements about the Benson perception and the end-to-end decomposition:
@@ -39,6 +40,18 @@ instance (m : Mol) : Decidable (EligibleRingsBondDisjoint m) := by
 /-- the bond with its atoms renamed -/
 def relabelBond (π : Nat → Nat) (e : Bond) : Bond :=
   { e with a := π e.a, b := π e.b, stereoAtoms := e.stereoAtoms.map π }
+
+/-- `φ` maps the graph `m` onto a union of connected components of `m'`, keeping everything a RING atom constraint can
+see: the atom itself, the bonds at it (none leaves the image), the rings through it.  Renumberings (`MolIso`) and the
+two injections into a disjoint union are the instances used (C03, C04). -/
+structure OpenMap (φ : Nat → Nat) (m m' : Mol) : Prop where
+  inj : Function.Injective φ
+  atoms : ∀ x, x < m.natoms → m'.atom? (φ x) = m.atom? x
+  bonds : ∀ x y, x < m.natoms → y < m.natoms → m'.bondBetween (φ x) (φ y) = (m.bondBetween x y).map (relabelBond φ)
+  closed : ∀ x y' e', x < m.natoms → m'.bondBetween (φ x) y' = some e' → ∃ y, y < m.natoms ∧ y' = φ y
+  double : ∀ x, x < m.natoms → ((∃ e ∈ m'.bonds, e.touches (φ x) = true ∧ e.kind = .double) ↔
+      (∃ e ∈ m.bonds, e.touches x = true ∧ e.kind = .double))
+  rings : ∀ x, x < m.natoms → ringsThrough m' (φ x) = (ringsThrough m x).map (List.map φ)
 
 /-- `m'` is `m` with every atom `i` renamed `π i`: the atom at `π i` of `m'` is the atom at `i` of `m`, the bonds
 and the rings are the renamed bonds and rings **in the same order**.  `π` is a bijection of the naturals that
